@@ -229,3 +229,16 @@ def single(vsel, sel):
     if not same_json(main, [m]):
         return "single-message-not-delivered"
     return "ok"
+
+
+def repeat(vsel, sels1, sels2, sels3):
+    """several batches in a row while the negotiated version stays the same: EACH is judged on its own"""
+    v = pick_version(vsel)
+    c = make_client()
+    if v is not None:
+        c.set_protocol_version(v)
+    for k, sels in enumerate((sels1, sels2, sels3)):
+        r = _check_batch(c, sels, v, len(c._incoming_send.items), len(c._notify_send.items), len(c.process.stdin.chunks))
+        if r != "ok":
+            return "batch-%d:" % (k + 1) + r
+    return "ok"
